@@ -293,7 +293,8 @@ pub fn run(tier: Tier, replay: Option<String>) -> i32 {
     run.set("functions_with_a_difference_per_signature", json!(t.per_signature));
     run.set("per_stratum_functions", json!(t.per_stratum));
     run.set("distinct_nontrivial", t.outcomes.len() as u64);
-    run.set("rule", "every function body of the strata (those containing trace, trace with an operand, ?, expect, fail, todo, Data casts at the full size bound) type-checked and compiled under each of the 9 Tracing values and evaluated on the full argument product; results (failure / constant) must coincide with the all-silent build; distinct_nontrivial = distinct observable outcomes");
+    decoder_part(&mut run, tier);
+    run.set("rule", "(a) every function body of the strata (those containing trace, trace with an operand, ?, expect, fail, todo, Data casts at the full size bound) type-checked and compiled under each of the 9 Tracing values and evaluated on the full argument product; results (failure / constant) must coincide with the all-silent build; distinct_nontrivial = distinct observable outcomes; (b) decoder family: 37 types covering Bool/Void/nested pairs in every position of pairs, map entries, tuples, lists, options, records and enums x 3-5 decoding forms (`expect _: T`, `expect v: T` + use, `if d is T`, destructuring patterns) x 9 tracings, run on the Data universe plus the mutation ball of every sample value: all nine builds must agree");
     run.assume("traces, program size and cost are ignored (the property is about what the program decides)");
     if t.functions == 0 {
         run.machinery_error("vacuous: nothing compiled");
@@ -307,6 +308,20 @@ pub fn run(tier: Tier, replay: Option<String>) -> i32 {
 fn replay_case(path: &str) -> i32 {
     let doc: serde_json::Value = serde_json::from_str(&std::fs::read_to_string(path).expect("read")).expect("json");
     let case = &doc["case"];
+    if case["engine"] == "c14-decoders" {
+        // the family is small: run it again and report what concerns the recorded type
+        let mut run = Run::new("C14", Tier::Quick);
+        decoder_part(&mut run, Tier::Quick);
+        let vs = run.take_violations();
+        let hits: Vec<_> = vs.iter().filter(|v| v.case["type"] == case["type"]).collect();
+        for v in &hits {
+            println!("VIOLATION property=C14 replay={path}\n  {}", v.what);
+        }
+        if hits.is_empty() {
+            println!("no violation on replay");
+        }
+        return if hits.is_empty() { 0 } else { 1 };
+    }
     let Some(src) = case["source"].as_str() else {
         println!("no source in the replay file");
         return 2;
@@ -350,5 +365,261 @@ fn replay_case(path: &str) -> i32 {
     if bad { 1 } else {
         println!("no violation on replay");
         0
+    }
+}
+
+// ---------------------------------------------------------------------------------------
+// Decoder family.  Whether a piece of Data is accepted by `expect` / `if .. is` is the most
+// common verdict a validator takes, and the code that decides it is generated along two
+// different paths: with a traced failure handler (compiler traces on) and without.  Every
+// type of a list that covers each kind of component (Bool / Void / nested pair in first and
+// second position of pairs and map entries, tuples, lists, options, records, enums) gets a
+// set of decoding functions; each is compiled under the nine tracings and run on the Data
+// universe plus the mutation ball of the type's sample values; all nine builds must agree.
+
+const DECODER_TYPES: &str = r#"pub type Proposal {
+  id: Int,
+  votes: Pairs<ByteArray, Bool>,
+}
+
+pub type Wrap {
+  flag: Bool,
+  unit: Void,
+  p: Pair<Int, Bool>,
+}
+
+pub type E {
+  X(Bool)
+  Y(Void, Int)
+  Z
+}
+"#;
+
+/// (annotation, sample literals, extra decoding forms with `@` for the annotation)
+fn decoder_types() -> Vec<(&'static str, Vec<&'static str>, Vec<&'static str>)> {
+    let pair = "expect Pair(a, b): @ = d\n  if a == a && b == b {\n    1\n  } else {\n    0\n  }";
+    vec![
+        ("Int", vec!["1"], vec![]),
+        ("ByteArray", vec!["#\"00\""], vec![]),
+        ("Bool", vec!["True", "False"], vec!["expect True: @ = d\n  1"]),
+        ("Void", vec!["Void"], vec![]),
+        ("Data", vec![], vec![]),
+        ("List<Int>", vec!["[1, 2]"], vec!["expect [h, ..]: @ = d\n  h"]),
+        ("List<Data>", vec![], vec![]),
+        ("List<Bool>", vec!["[True, False]"], vec!["expect [h, ..]: @ = d\n  if h {\n    1\n  } else {\n    0\n  }"]),
+        ("List<Void>", vec!["[Void]"], vec![]),
+        ("List<List<Bool>>", vec!["[[True], []]"], vec![]),
+        ("List<(Int, Bool)>", vec!["[(1, True)]"], vec![]),
+        ("Option<Bool>", vec!["Some(True)", "None"], vec!["expect Some(x): @ = d\n  if x {\n    1\n  } else {\n    0\n  }"]),
+        ("Option<Void>", vec!["Some(Void)"], vec![]),
+        ("Option<Option<Bool>>", vec!["Some(Some(False))", "Some(None)"], vec![]),
+        ("Option<Pair<Int, Bool>>", vec!["Some(Pair(1, True))"], vec![]),
+        ("(Int, Bool)", vec!["(1, True)"], vec!["expect (a, b): @ = d\n  if b {\n    a\n  } else {\n    0 - a\n  }"]),
+        ("(Bool, Void, Int)", vec!["(False, Void, 2)"], vec![]),
+        ("(Int, (Bool, Int))", vec!["(1, (True, 2))"], vec![]),
+        ("Pair<Int, Bool>", vec!["Pair(7, True)", "Pair(0, False)"], vec![pair, "expect Pair(n, enabled): @ = d\n  if enabled {\n    n\n  } else {\n    0 - n\n  }"]),
+        ("Pair<Bool, Int>", vec!["Pair(False, 2)"], vec![pair]),
+        ("Pair<Int, Void>", vec!["Pair(1, Void)"], vec![pair]),
+        ("Pair<Void, Bool>", vec!["Pair(Void, True)"], vec![pair]),
+        ("Pair<Int, Pair<Int, Bool>>", vec!["Pair(1, Pair(2, True))"], vec![pair]),
+        ("Pair<Pair<Bool, Int>, Int>", vec!["Pair(Pair(True, 2), 3)"], vec![pair]),
+        ("Pair<Int, List<Bool>>", vec!["Pair(1, [True])"], vec![pair]),
+        ("Pair<Int, Option<Bool>>", vec!["Pair(1, Some(True))"], vec![pair]),
+        ("Pairs<ByteArray, Bool>", vec!["[Pair(#\"00\", True), Pair(#\"01\", False)]"], vec!["expect [Pair(_, v), ..]: @ = d\n  if v {\n    1\n  } else {\n    0\n  }"]),
+        ("Pairs<Bool, Bool>", vec!["[Pair(True, False)]"], vec![]),
+        ("Pairs<Int, Void>", vec!["[Pair(1, Void)]"], vec![]),
+        ("Pairs<Int, Pair<Int, Bool>>", vec!["[Pair(1, Pair(2, True))]"], vec![]),
+        ("Pairs<Int, (Int, Bool)>", vec!["[Pair(1, (2, True))]"], vec![]),
+        ("List<Pairs<Int, Bool>>", vec!["[[Pair(1, True)], []]"], vec![]),
+        ("Proposal", vec!["Proposal { id: 1, votes: [Pair(#\"aa\", True)] }"], vec!["expect Proposal { votes, .. }: @ = d\n  when votes is {\n    [Pair(_, v), ..] ->\n      if v {\n        1\n      } else {\n        0\n      }\n    [] -> 2\n  }"]),
+        ("Wrap", vec!["Wrap { flag: True, unit: Void, p: Pair(1, False) }"], vec!["expect Wrap { p, .. }: @ = d\n  p.1st"]),
+        ("E", vec!["X(True)", "Y(Void, 1)", "Z"], vec!["expect X(b): @ = d\n  if b {\n    1\n  } else {\n    0\n  }"]),
+        ("List<E>", vec!["[X(False), Z]"], vec![]),
+        ("Option<Wrap>", vec!["Some(Wrap { flag: False, unit: Void, p: Pair(0, True) })"], vec![]),
+    ]
+}
+
+fn decoder_source() -> (String, Vec<(usize, String, String)>, Vec<(usize, String)>) {
+    let mut src = String::from(DECODER_TYPES);
+    let mut fns = vec![];
+    let mut samples = vec![];
+    for (k, (t, lits, extra)) in decoder_types().iter().enumerate() {
+        let mut forms: Vec<String> = vec![
+            "expect _v: @ = d\n  1".to_string(),
+            "expect v: @ = d\n  if v == v {\n    1\n  } else {\n    0\n  }".to_string(),
+            "if d is @ {\n    if d == d {\n      1\n    } else {\n      0\n    }\n  } else {\n    2\n  }".to_string(),
+        ];
+        forms.extend(extra.iter().map(|s| s.to_string()));
+        for (j, f) in forms.iter().enumerate() {
+            let name = format!("g_{k}_{j}");
+            let body = f.replace('@', t);
+            src.push_str(&format!("\npub fn {name}(d: Data) -> Int {{\n  {body}\n}}\n"));
+            fns.push((k, name, body));
+        }
+        for (i, lit) in lits.iter().enumerate() {
+            let name = format!("s_{k}_{i}");
+            src.push_str(&format!("\npub fn {name}() -> Data {{\n  let v: {t} = {lit}\n  let d: Data = v\n  d\n}}\n"));
+            samples.push((k, name));
+        }
+    }
+    (src, fns, samples)
+}
+
+pub fn decoder_part(run: &mut Run, tier: Tier) {
+    let (src, fns, samples) = decoder_source();
+    let types = decoder_types();
+    let trs = tracings();
+    // programs[t][f], built on the main thread (41 types x <=5 forms x 9 tracings)
+    let mut programs: Vec<Vec<Program<Name>>> = vec![];
+    let mut sample_values: Vec<(usize, RData)> = vec![];
+    for (ti, (tname, t)) in trs.iter().enumerate() {
+        let built = guarded(|| {
+            let mut proj = crate::driver::Proj::new();
+            let typed = proj.check(&src, *t).map_err(|e| format!("{:?}", e))?;
+            let all = crate::driver::functions_of(&typed);
+            let mut row = vec![];
+            for (_, name, _) in &fns {
+                let f = all.iter().find(|f| &f.name == name).ok_or(format!("function {name} missing"))?;
+                let mut g = proj.generator(*t);
+                row.push(g.generate_raw(&f.body, &f.arguments, crate::driver::MODULE_NAME));
+                let _ = aiken_lang::verif_hooks::drain_pre_optimisation();
+            }
+            let mut vals = vec![];
+            if ti == 0 {
+                for (k, name) in &samples {
+                    let f = all.iter().find(|f| &f.name == name).ok_or(format!("function {name} missing"))?;
+                    let mut g = proj.generator(*t);
+                    let p = g.generate_raw(&f.body, &f.arguments, crate::driver::MODULE_NAME);
+                    let _ = aiken_lang::verif_hooks::drain_pre_optimisation();
+                    match run_program(&p, &[]) {
+                        Ran::Value(uplc::ast::Term::Constant(c)) => match c.as_ref() {
+                            uplc::ast::Constant::Data(d) => vals.push((*k, vcore::rterm::from_impl_data(d))),
+                            other => return Err(format!("sample {name} is not Data: {:?}", other)),
+                        },
+                        _ => return Err(format!("sample {name} does not evaluate")),
+                    }
+                }
+            }
+            Ok::<_, String>((row, vals))
+        });
+        match built {
+            Ok(Ok((row, vals))) => {
+                programs.push(row);
+                if ti == 0 {
+                    sample_values = vals;
+                }
+            }
+            Ok(Err(e)) => {
+                if ti == 0 {
+                    run.machinery_error(format!("decoder family does not build under {tname}: {e}"));
+                } else {
+                    run.violation(Violation { signature: format!("type-check-depends-on-tracing|{tname}"), what: format!("the decoder module builds under all-silent but not under {tname}: {e}"), case: json!({"engine":"c14-decoders","tracing":tname}) });
+                }
+                return;
+            }
+            Err(p) => {
+                run.violation(Violation { signature: format!("panic|compiler|{}|{tname}", vcore::evid::panic_site_file(&p)), what: format!("building the decoder module under {tname} panicked: {p}"), case: json!({"engine":"c14-decoders","tracing":tname}) });
+                return;
+            }
+        }
+    }
+    let universe = match tier {
+        Tier::Quick => vcore::datau::depth2_reduced(),
+        Tier::Thorough => vcore::datau::depth2_full(),
+    };
+    // per type: universe + samples + their mutation balls
+    let mut cands: Vec<Vec<RData>> = vec![vec![]; types.len()];
+    for (k, c) in cands.iter_mut().enumerate() {
+        let mut v = universe.clone();
+        for (sk, d) in &sample_values {
+            if *sk == k {
+                v.push(d.clone());
+                v.extend(vcore::datau::mutation_ball(d).into_iter().map(|(_, m)| m));
+            }
+        }
+        *c = vcore::datau::dedup(v);
+    }
+    // programs hold Rc: evaluation is sharded by re-serialising through flat in each worker
+    let flats: Vec<Vec<Vec<u8>>> = programs
+        .iter()
+        .map(|row| {
+            row.iter()
+                .map(|p| {
+                    let d: Program<uplc::ast::DeBruijn> = p.clone().try_into().expect("closed program");
+                    d.to_flat().expect("flat")
+                })
+                .collect()
+        })
+        .collect();
+    drop(programs);
+    #[derive(Default)]
+    struct L {
+        evaluations: u64,
+        compared: u64,
+        accepted: u64,
+        rejected: u64,
+        violations: Vec<Violation>,
+    }
+    let out = par_indices(
+        fns.len() as u64,
+        1,
+        None,
+        |_| L::default(),
+        |l, fi| {
+            let (k, _, body) = &fns[fi as usize];
+            let progs: Vec<Program<Name>> = flats
+                .iter()
+                .map(|row| {
+                    let d = Program::<uplc::ast::DeBruijn>::from_flat(&row[fi as usize]).expect("unflat");
+                    let n: Program<uplc::ast::NamedDeBruijn> = d.into();
+                    n.try_into().expect("names")
+                })
+                .collect();
+            let mut flagged = false;
+            for d in &cands[*k] {
+                let want = outcome(&progs[0], std::slice::from_ref(d));
+                l.evaluations += 1;
+                if want == "fail" {
+                    l.rejected += 1;
+                } else {
+                    l.accepted += 1;
+                }
+                for (ti, (tname, _)) in trs.iter().enumerate().skip(1) {
+                    let got = outcome(&progs[ti], std::slice::from_ref(d));
+                    l.evaluations += 1;
+                    l.compared += 1;
+                    if got != want && !flagged {
+                        flagged = true;
+                        let kind = if want == "fail" { "succeeds-only-when-traced-differently" } else if got == "fail" { "fails-only-when-traced-differently" } else { "value-differs" };
+                        l.violations.push(Violation {
+                            signature: format!("verdict-depends-on-tracing|{kind}|decoder:{}", types[*k].0),
+                            what: format!("decoding {} as {}: the all-silent build gives {want} but the {tname} build gives {got}:\n  {body}", vcore::rterm::show_data(d), types[*k].0),
+                            case: json!({"engine":"c14-decoders","type":types[*k].0,"body":body,"tracing":tname,"data":vcore::rterm::show_data(d)}),
+                        });
+                    }
+                }
+            }
+        },
+        |l| l,
+    );
+    let (mut ev, mut cmp, mut acc, mut rej) = (0u64, 0u64, 0u64, 0u64);
+    for l in out.results {
+        ev += l.evaluations;
+        cmp += l.compared;
+        acc += l.accepted;
+        rej += l.rejected;
+        run.violations_extend(l.violations);
+    }
+    run.set("decoder_types", types.len() as u64);
+    run.set("decoder_functions", fns.len() as u64);
+    run.set("decoder_builds", (fns.len() * trs.len()) as u64);
+    run.set("decoder_evaluations", ev);
+    run.set("decoder_inputs_accepted_by_the_silent_build", acc);
+    run.set("decoder_inputs_rejected_by_the_silent_build", rej);
+    run.add("evaluations", ev);
+    run.add("transitions", ev);
+    run.add("traces_validated_against_impl", cmp);
+    if acc == 0 || rej == 0 || sample_values.is_empty() {
+        run.machinery_error("decoder family is vacuous");
     }
 }
